@@ -325,6 +325,12 @@ pub fn gen_request(g: &mut G, max_body: usize) -> ReqPlan {
             2 => "Cookie".to_string(),
             3 => "If-None-Match".to_string(),
             4 => format!("X-{}", (0..g.range(1, 8)).map(|_| *g.pick(&['a', 'B', '9', '-', '_', '!', '~', '.'])).collect::<String>()),
+            // (no draw: every second field in this arm) a hop-by-hop-sounding field of the caller's own - it is
+            // the caller's field and travels like any other
+            _ if headers.len() % 2 == 1 => {
+                g.probe("caller-sets-proxy-authorization");
+                "Proxy-Authorization".to_string()
+            }
             _ => "Range".to_string(),
         };
         let value: Vec<u8> = match g.below(6) {
